@@ -3177,6 +3177,89 @@ func c01r13(c *Ctx, r *Report) {
 	r.floor("functions that decide whether a term carries an accent", n, 2)
 }
 
+// c15r16: the prompt scrolls horizontally only when the query does not fit. Terminal.xoffset is kept from one
+// call to the next (so that the view does not jump while the cursor moves inside a long query); the bounds it is
+// clamped to therefore have to know whether the WHOLE query fits in the space available (D70: the upper bound was
+// half of the text before the cursor, whatever its width: after `change-query` from an 80-character query to
+// `0123456789` the prompt showed `> 56789`). What is checked is the necessary structure, not the arithmetic: the
+// clamp's upper bound depends on a comparison between a width measured on the whole Terminal.input and the
+// available width.
+func c15r16(c *Ctx, r *Report) {
+	l := c.L
+	r.rule("C15-R16", "D (the scroll bound of the prompt depends on a `the whole query fits` test)", "P1",
+		"in Terminal.updatePromptOffset, the upper bound handed to the clamp of Terminal.xoffset is control- or data-dependent on a comparison one side of which is computed from the whole Terminal.input (not a slice of it)",
+		"a query that fits in the prompt is shown without its beginning after a longer query was replaced: the prompt line does not show the current query")
+	fn := l.Fn("fzf", "(*Terminal).updatePromptOffset")
+	fX := l.Field("fzf", "Terminal", "xoffset")
+	fIn := l.Field("fzf", "Terminal", "input")
+	if fn == nil || fX == nil || fIn == nil {
+		r.unest("anchors", token.NoPos, nil, "anchors Terminal.updatePromptOffset / xoffset / input", "cannot resolve")
+		return
+	}
+	wholeInput := func(v ssa.Value) bool {
+		for w := range backwardSlice(v, func(*ssa.CallCommon) bool { return true }, func(x ssa.Value) bool { _, isSl := x.(*ssa.Slice); return isSl }) {
+			if fld, _ := loadedField(w); fld == fIn {
+				return true
+			}
+		}
+		return false
+	}
+	cc := cdCache{}
+	n := 0
+	eachInstr(fn, func(in ssa.Instruction) {
+		st, ok := in.(*ssa.Store)
+		if !ok {
+			return
+		}
+		if fld, _ := fieldOf(st.Addr); fld != fX {
+			return
+		}
+		n++
+		call, ok := st.Val.(*ssa.Call)
+		if !ok || len(call.Call.Args) != 3 {
+			r.bad(relName(fn)+":xoffset is clamped", st.Pos(), fn, "util.Constrain(xoffset, lo, hi)", "the scroll offset is not stored through a clamp")
+			return
+		}
+		hi := call.Call.Args[2]
+		// comparisons the upper bound depends on: phi edges' controlling conditions + data
+		dep := false
+		var conds []ssa.Value
+		for w := range backwardSlice(hi, nil, nil) {
+			if phi, ok := w.(*ssa.Phi); ok {
+				for _, p := range phi.Block().Preds {
+					for cnd := range cc.of(p.Instrs[len(p.Instrs)-1]) {
+						conds = append(conds, cnd)
+					}
+					if iff, ok := p.Instrs[len(p.Instrs)-1].(*ssa.If); ok {
+						conds = append(conds, iff.Cond)
+					}
+				}
+			}
+			if b, ok := w.(*ssa.BinOp); ok {
+				switch b.Op {
+				case token.LSS, token.LEQ, token.GTR, token.GEQ:
+					conds = append(conds, b)
+				}
+			}
+		}
+		for _, cnd := range conds {
+			b, ok := cnd.(*ssa.BinOp)
+			if !ok {
+				continue
+			}
+			switch b.Op {
+			case token.LSS, token.LEQ, token.GTR, token.GEQ:
+				if wholeInput(b.X) || wholeInput(b.Y) {
+					dep = true
+				}
+			}
+		}
+		r.check(dep, relName(fn)+":the upper bound of the scroll offset knows whether the query fits", st.Pos(), fn,
+			"depends on a comparison of the whole query's width with the available width", "the upper bound of the prompt's scroll offset is computed from the text before the cursor only: a query that fits can still be shown scrolled")
+	})
+	r.floor("stores into Terminal.xoffset in updatePromptOffset", n, 1)
+}
+
 // round8 runs the round-8 rules of a property (own and shared) after the property's older rules.
 func round8(c *Ctx, r *Report, prop string) {
 	switch prop {
@@ -3226,6 +3309,7 @@ func round8(c *Ctx, r *Report, prop string) {
 		c06r11(c, r)
 		c06r12(c, r)
 	case "C15":
+		c15r16(c, r)
 		c15r13(c, r)
 		c15r14(c, r)
 		c15r15(c, r)
